@@ -18,6 +18,8 @@
 (*        "othermsg"     i's genuine partial for another message             *)
 (*        "badindex"     index field >= n                                    *)
 (*     (Signature() and EnoughPartialSig() are observed after every step.)   *)
+(*     VerifyAll(p)              final phase: all n participants verify the   *)
+(*                               signature p derived, concurrently            *)
 (*                                                                         *)
 (* Requirement (C12): a partial is accepted iff it is valid and its signer   *)
 (* is not yet held; nothing else ever contributes; Signature succeeds iff    *)
@@ -115,12 +117,31 @@ RecvBad(p, kind, i) ==
      ELSE Log("recv", p, kind, i, "reject", acc[p], signed[p])
   /\ UNCHANGED <<t, focus, acc, signed, delivered>>
 
+\* nothing but the final phase is left for p: signed, every valid partial held, budget spent
+Exhausted(p) == /\ signed[p] /\ bad[p] = MaxBad
+                /\ \A i \in Idx : i \in acc[p]
+Finished == EmitMode # "none" /\ Len(hist) > 1 /\ hist[Len(hist)].op = "verifyall"
+
+\* FINAL PHASE (generator only): the signature p derived is handed to ALL n participants, who verify
+\* it at the same time as an ordinary EdDSA / Schnorr signature under the distributed public key.
+\* It must verify for each of them: p holds >= t valid partials, so by AllSignaturesEqual and the
+\* ASSUME above its response scalar is beta + h * alpha.
+VerifyAll(p) ==
+  /\ EmitMode # "none" /\ ~Finished
+  /\ Enough(p)
+  /\ Exhausted(p) \/ Len(hist) = L - 1
+  /\ hist' = Append(hist, [op |-> "verifyall", p |-> p, kind |-> "concurrent", from |-> N, res |-> "valid",
+                            acc |-> acc[p], signed |-> signed[p], enough |-> TRUE])
+  /\ UNCHANGED <<t, focus, acc, signed, bad, delivered>>
+
 Next ==
   /\ (EmitMode = "none" \/ Len(hist) < L)
+  /\ ~Finished
   /\ \E p \in Parts :
        \/ Sign(p)
        \/ \E i \in Idx : RecvValid(p, i)
        \/ \E kind \in BadKinds : \E i \in Idx \cup {N, N + 1, -1} : RecvBad(p, kind, i)
+       \/ VerifyAll(p)
 
 Spec == Init /\ [][Next]_vars
 
@@ -147,9 +168,7 @@ AllSignaturesEqual ==
 \* rejected input never changes the object
 RejectIsNoop == [][\A p \in Idx : (bad'[p] > bad[p]) => (acc'[p] = acc[p] /\ signed'[p] = signed[p])]_vars
 
-Done == \A p \in Parts :
-          /\ signed[p] /\ bad[p] = MaxBad
-          /\ \A i \in Idx : i \in acc[p]
+Done == Finished /\ \A p \in Parts : Exhausted(p)
 Emit == ((EmitMode = "done" /\ (Done \/ Len(hist) = L)) \/ (EmitMode = "len" /\ Len(hist) = L))
           => PrintT(<<"TRACE", ToJson(hist)>>)
 \* transition tour: with VIEW View every abstract state is reached once (shortest history) and
